@@ -120,10 +120,18 @@ def pathAux (s : Sys) : Nat → Nat → List Name
 /-- `'.'.join(...)` -/
 def fullName (s : Sys) (i : Nat) : List Char := List.intercalate ['.'] (pathAux s (s.n + 1) i)
 
-/-- `Documentable.isVisible`:
+/-- `name in b.contents` (keys of `contents` are the members' names) -/
+def hasMember (s : Sys) (b : Nat) (nm : Name) : Bool := (s.ob b).contents.any fun c => (s.ob c).name = nm
+
+/-- `b.contents.get(name)` / `b.contents[name]` -/
+def member (s : Sys) (b : Nat) (nm : Name) : Option Nat := (s.ob b).contents.find? fun c => (s.ob c).name = nm
+
+/-- `Documentable.isVisible` (since "fix: an older definition superseded by a later one of the same name
+is not visible"):
 ```
 isVisible = self.privacyClass is not PrivacyClass.HIDDEN
-if isVisible and self.parent: isVisible = self.parent.isVisible
+if isVisible and self.parent:
+    isVisible = self.parent.contents.get(self.name) is self and self.parent.isVisible
 ``` -/
 def visibleAux (s : Sys) : Nat → Nat → Bool
   | 0, _ => false
@@ -131,7 +139,7 @@ def visibleAux (s : Sys) : Nat → Nat → Bool
     (s.ob i).privacy != .hidden &&
       match (s.ob i).parent with
       | none => true
-      | some p => visibleAux s f p
+      | some p => member s p (s.ob i).name == some i && visibleAux s f p
 
 def visible (s : Sys) (i : Nat) : Bool := visibleAux s (s.n + 1) i
 
@@ -267,12 +275,6 @@ def initChildren (s : Sys) (p : Nat) : List Nat :=
     (s.ob p).contents.filter fun c => !(s.ob c).kind.isModule && visible s c
   else []
 
-/-- `name in b.contents` (keys of `contents` are the members' names) -/
-def hasMember (s : Sys) (b : Nat) (nm : Name) : Bool := (s.ob b).contents.any fun c => (s.ob c).name = nm
-
-/-- `b.contents[name]` -/
-def member (s : Sys) (b : Nat) (nm : Name) : Option Nat := (s.ob b).contents.find? fun c => (s.ob c).name = nm
-
 /-- `util.nested_bases`: `tuple(reversed(_mro[:i+1]))` for every `i` -/
 def nestedBases (s : Sys) (c : Nat) : List (List Nat) :=
   (List.range (s.ob c).mro.length).map fun i => ((s.ob c).mro.take (i+1)).reverse
@@ -338,9 +340,11 @@ structure Emit where
   ctx : Option File
   target : Nat
   marked : Option Bool
+  /-- `taglink` built a hyperlink (`false`: the target is not visible, the label is plain text) -/
+  linked : Bool := true
   deriving DecidableEq, Repr
 
-def link (row : Row) (page : File) (ctx : Option File) (t : Nat) : Emit := ⟨row, page, ctx, t, none⟩
+def link (row : Row) (page : File) (ctx : Option File) (t : Nat) : Emit := ⟨row, page, ctx, t, none, true⟩
 
 /-- links of the summary of `o` copied elsewhere (`format_summary`: `switch_context(None)`, full urls) -/
 def sumLinks (s : Sys) (row : Row) (page : File) (o : Nat) : List Emit :=
@@ -348,17 +352,16 @@ def sumLinks (s : Sys) (row : Row) (page : File) (o : Nat) : List Emit :=
   | none => []
   | some _ => (s.ob o).xrefs.map (link row page none)
 
-/-- links of the displayed docstring of `o`, rendered into `page`. `format_docstring` hands
-`source.docstring_linker` to `to_stan` without `switch_context`: the shortening is relative to the
-page object that linker remembers (the page of the docstring's *source*, as it was when the linker
-was created), not to `page`. -/
+/-- links of the displayed docstring of `o`, rendered into `page` (since "fix: links in an inherited or
+re-exported docstring are shortened for the page they are written on"): `format_docstring` renders under
+`source.docstring_linker.switch_context(obj)`, so the shortening is relative to `obj.page_object`. -/
 def docLinks (s : Sys) (page : File) (o : Nat) : List Emit :=
   match (s.ob o).docSource with
   | none => []
   | some _ =>
-    match (s.ob o).docCtx with
-    | none => (s.ob o).xrefs.map (link .docXref page none)
-    | some sp => (s.ob o).xrefs.map (link .docXref page (some (pageFile s sp)))
+    match pageObject s o with
+    | none => []
+    | some op => (s.ob o).xrefs.map (link .docXref page (some (pageFile s op)))
 
 /-- `_AnnotationLinker.link_to`: `switch_context(self._obj)` -/
 def annLinks (s : Sys) (page : File) (o : Nat) : List Emit :=
@@ -380,7 +383,7 @@ def overrideInfo (s : Sys) (pf : File) (c : Nat) (nm : Name) : List Emit :=
 def headingLinks (s : Sys) (pf : File) (p : Nat) : List Emit :=
   ((chain s p).filter fun a => (s.ob a).kind.ownPage).map (link .heading pf (some pf))
 
-def entry (row : Row) (page : File) (ctx : Option File) (t : Nat) (m : Bool) : Emit := ⟨row, page, ctx, t, some m⟩
+def entry (row : Row) (page : File) (ctx : Option File) (t : Nat) (m : Bool) : Emit := ⟨row, page, ctx, t, some m, true⟩
 
 /-- `ObjContent` / `ContentList` / `ContentItem` / `LinkOnlyItem` / `ExpandableItem`: `k` = how many
 more levels expand (`_level < _depth`) -/
@@ -487,11 +490,14 @@ def addBase (r : Roots) (nm : List Char) (c : Nat) : Roots :=
   | none => rset r nm (.many [c])
 
 /-- the body of the loop of `findRootClasses` for one class. Keys are strings: the qualified name of a
-class without bases and the *name* of an unresolved or invisible base share one dict — a class whose
-base could not be resolved although a class of that name exists can overwrite, or be overwritten. -/
+class without bases and the *name* of an unresolved or invisible base share one dict. -/
 def rootStep (s : Sys) (r : Roots) (c : Nat) : Roots :=
   if hasSpace (s.ob c).name || !visible s c then r
-  else if (s.ob c).baseNames.isEmpty then rset r (fullName s c) (.one c)
+  else if (s.ob c).baseNames.isEmpty then
+    -- since "fix: the class index keeps a root class whose name is also used as an unresolved base"
+    match rget r (fullName s c) with
+    | some (.many l) => rset r (fullName s c) (.many (l ++ [c]))
+    | _ => rset r (fullName s c) (.one c)
   else
     ((s.ob c).baseNames.zip (s.ob c).bases).foldl (fun r (nb : Name × Option Nat) =>
       match nb.2 with
@@ -545,8 +551,19 @@ def summaryEmits (s : Sys) : List Emit :=
         entry .allDocs (.summary .allDocuments) none o ((s.ob o).privacy == .priv)
         :: sumLinks s .allDocsSum (.summary .allDocuments) o)
 
-/-- every link / listing entry of the run -/
-def emits (s : Sys) : List Emit := (pages s).flatMap (pageEmits s) ++ summaryEmits s
+/-- every `taglink` call and every listing entry the page code makes -/
+def requests (s : Sys) : List Emit := (pages s).flatMap (pageEmits s) ++ summaryEmits s
+
+/-- the visibility guard inside `linker.taglink` (since "fix: taglink renders plain text instead of a link
+when the target is hidden"): `return tags.transparent(label)`. The plain label of a link is not a mention;
+the root rows of moduleIndex.html and index.html are still written as rows, with the name as text. -/
+def taglinkGuard (s : Sys) (e : Emit) : Option Emit :=
+  if visible s e.target then some e
+  else if e.row = .modIndexRoot || e.row = .indexRoots then some { e with linked := false }
+  else none
+
+/-- every hyperlink / listing entry of the run -/
+def emits (s : Sys) : List Emit := (requests s).filterMap (taglinkGuard s)
 
 /-- `LunrIndexWriter.get_corpus` / `get_all_documents_flattenable`: the search documents -/
 def searchDocs (s : Sys) : List Nat := visibleAll s
@@ -585,7 +602,7 @@ def Row.isLink : Row → Bool
 
 /-- the emitted link resolves (entries that are not hyperlinks resolve trivially) -/
 def resolves (s : Sys) (e : Emit) : Bool :=
-  !e.row.isLink ||
+  !e.row.isLink || !e.linked ||
     match href s e with
     | none => false
     | some h => resolvesHref s e.page h
@@ -598,18 +615,10 @@ def urlResolves (s : Sys) (i : Nat) : Bool :=
 
 /-! ### guards (the third column of the producer table) -/
 
-/-- rows whose code path tests `isVisible` of the target (directly, or of the object the target
-contains: ancestors of a visible object are visible) -/
-def Row.guardVisible : Row → Bool
-  | .table | .initTable | .baseTable | .detail | .sidebarTitle | .sidebarItem | .sidebarInherited
-  | .heading | .knownSub | .overriddenIn | .baseName | .modIndex | .classIndex | .nameIndex | .undoc
-  | .allDocs => true
-  | _ => false
-
-/-- rows whose target is moreover reached through `contents` from a root (they iterate the
-`contents` of a page that was itself reached) -/
-def Row.guardReached : Row → Bool
-  | .table | .initTable | .detail | .sidebarTitle | .sidebarItem | .heading | .modIndex => true
+/-- the two rows that are written even when `taglink` refuses the link: the `<li>` of a root in
+moduleIndex.html (`moduleSummary`) and in index.html (`IndexPage.roots`) iterate `rootobjects` unguarded -/
+def Row.rootRow : Row → Bool
+  | .modIndexRoot | .indexRoots => true
   | _ => false
 
 /-- listing rows on which the property demands the `private` marker (member tables, member details,
@@ -621,11 +630,11 @@ def Row.listing : Row → Bool
 
 /-! ### well-formedness of the table (what C02 establishes about a real System) -/
 
-/-- per object: a parentless object is a module, a parent is numbered lower and has its own page
+/-- per object: a parentless object is a root module, a parent is numbered lower and has its own page
 (functions and attributes contain nothing); `contents` is in range, agrees with `parent`, and has pairwise different names -/
 def wfObj (s : Sys) (i : Nat) : Bool :=
   (match (s.ob i).parent with
-    | none => (s.ob i).kind.isModule
+    | none => (s.ob i).kind.isModule && s.roots.contains i
     | some p => decide (p < i) && (s.ob p).kind.ownPage)
   && (s.ob i).contents.all (fun c => decide (c < s.n) && (s.ob c).parent == some i)
   && (s.ob i).contents.all (fun c => (s.ob i).contents.all fun d => c == d || (s.ob c).name != (s.ob d).name)
@@ -658,5 +667,52 @@ def superseded (s : Sys) (i : Nat) : Bool :=
   match (s.ob i).parent with
   | none => !s.roots.contains i
   | some p => !(s.ob p).contents.contains i
+
+/-! ### pre-fix transcriptions — only for the labelled historical counterexamples of PdProps/C11, C12 -/
+
+/-- `Documentable.isVisible` before cb98646: own privacy, then the parent chain (a superseded `'x 0'` was
+visible) -/
+def visibleOldAux (s : Sys) : Nat → Nat → Bool
+  | 0, _ => false
+  | f+1, i =>
+    (s.ob i).privacy != .hidden &&
+      match (s.ob i).parent with
+      | none => true
+      | some p => visibleOldAux s f p
+
+def visibleOld (s : Sys) (i : Nat) : Bool := visibleOldAux s (s.n + 1) i
+
+/-- targets of nameIndex.html / all-documents.html / the search index before cb98646 -/
+def visibleAllOld (s : Sys) : List Nat := s.all.filter (visibleOld s)
+
+/-- `format_docstring` before 1da744b: no `switch_context`, the shortening context is the page object the
+source's linker remembers (`docCtx`) -/
+def docLinksOld (s : Sys) (page : File) (o : Nat) : List Emit :=
+  match (s.ob o).docSource with
+  | none => []
+  | some _ =>
+    match (s.ob o).docCtx with
+    | none => (s.ob o).xrefs.map (link .docXref page none)
+    | some sp => (s.ob o).xrefs.map (link .docXref page (some (pageFile s sp)))
+
+/-- `findRootClasses` before 97be2c0 (a class without bases overwrote whatever was stored under its name)
+and before cb98646 (`visibleOld`) -/
+def rootStepOld (s : Sys) (r : Roots) (c : Nat) : Roots :=
+  if hasSpace (s.ob c).name || !visibleOld s c then r
+  else if (s.ob c).baseNames.isEmpty then rset r (fullName s c) (.one c)
+  else
+    ((s.ob c).baseNames.zip (s.ob c).bases).foldl (fun r (nb : Name × Option Nat) =>
+      match nb.2 with
+      | none => addBase r nb.1 c
+      | some b => if visibleOld s b then r else addBase r nb.1 c) r
+
+def subclassesFromOld (s : Sys) : Nat → Nat → List Nat
+  | 0, _ => []
+  | f+1, c =>
+    c :: ((s.ob c).subclasses.filter fun sc => !hasSpace (fullName s sc) && visibleOld s sc).flatMap (subclassesFromOld s f)
+
+def classIndexListedOld (s : Sys) : List Nat :=
+  ((classes s).foldl (rootStepOld s) []).flatMap fun kv => kv.2.classes.flatMap (subclassesFromOld s s.n)
+
 
 end Output
